@@ -129,7 +129,7 @@ def keccak_lemma(ex, a, ins):
     finally:
         ex.mem.hook = None
     ex.verif_assert(hook.count == 600, 'exactly 600 lane stores (24 rounds of 25)')
-    ex.events.append(('reach', 'keccak-f lemma: 24 rounds'))
+    ex.events.append(('note', 'keccak-f lemma: 24 rounds'))
     return None
 
 def install(ex):
